@@ -7,8 +7,12 @@
         [y, mo, d, h, mi, s, f, off]     f = nanoseconds of the second, off = minutes east of UTC
    whose instant is computed here from the proleptic Gregorian calendar (days-from-civil),
    independently of Go's time package; Spell renders it in the three spellings InfluxQL
-   recognises.  The second half (LooksLikeTime, ParseTimeStr) is the design-side reading of
-   StringLiteral.IsTimeLiteral / ToTimeLiteral for exactly those spellings.            *)
+   recognises.  Two of them ("date", "dt") carry no offset: their instant depends on the
+   time zone in force, which is a property of the valuer given to Reduce (ZoneInForce: the
+   first non-nil zone of the valuer composition in depth-first member order, UTC when there
+   is none); a string with an explicit offset ("rfc") ignores it (ZonedInstant).
+   The second half (LooksLikeTime, ParseTimeStrIn) is the design-side reading of
+   StringLiteral.IsTimeLiteral / ToTimeLiteral(loc) for exactly those spellings.       *)
 EXTENDS BigInt
 
 FromInt(n) == IF n < 0 THEN Neg(FromNat(-n)) ELSE FromNat(n)
@@ -30,6 +34,20 @@ InstantNs(c) ==
   IN Add(Mul(secs, Billion), FromNat(c.f))
 ValidCivil(c) == /\ c.y \in 1..9999 /\ c.mo \in 1..12 /\ c.d \in 1..DaysIn(c.y, c.mo)
                  /\ c.h \in 0..23 /\ c.mi \in 0..59 /\ c.s \in 0..59 /\ c.f \in 0..999999999
+
+\* ---- time zones.  A zone is a fixed offset, minutes east of UTC.  A valuer composition is a tree of
+\*   [k |-> "map"]                               MapValuer(bindings): knows no zone
+\*   [k |-> "now", now |-> BOOLEAN (, off |-> z)]  &NowValuer{Now, Location}: its Location when it has one (off present)
+\*   [k |-> "multi", ms |-> <<member, ...>>]     MultiValuer(members...)
+\* The zones a composition names, in depth-first member order; the one in force is the first of them.
+RECURSIVE ZonesOf(_), ZonesOfSeq(_, _)
+ZonesOf(v) == CASE v.k = "now" -> (IF "off" \in DOMAIN v THEN <<v.off>> ELSE <<>>)
+                [] v.k = "multi" -> ZonesOfSeq(v.ms, 1)
+                [] OTHER -> <<>>
+ZonesOfSeq(ms, i) == IF i > Len(ms) THEN <<>> ELSE ZonesOf(ms[i]) \o ZonesOfSeq(ms, i + 1)
+ZoneInForce(v) == LET zs == ZonesOf(v) IN IF zs = <<>> THEN 0 ELSE zs[1]
+\* the instant of civil record c written in spelling fmt, read in zone z
+ZonedInstant(c, fmt, z) == InstantNs(IF fmt = "rfc" THEN c ELSE [c EXCEPT !.off = z])
 
 \* ---- spellings:  "date" 2006-01-02 | "dt" 2006-01-02 15:04:05[.ffffff] | "rfc" 2006-01-02T15:04:05[.fffffffff](Z|+hh:mm)
 P2(n) == Pad4(n, 2)
@@ -65,11 +83,11 @@ Frac(s) == IF Len(s) >= 20 /\ Ch(s, 20) = "." /\ DigitRun(s, 21) \in 1..9
            THEN LET n == DigitRun(s, 21) IN [ok |-> TRUE, f |-> NumAt(s, 21, n) * (10 ^ (9 - n)), next |-> 21 + n]
            ELSE [ok |-> TRUE, f |-> 0, next |-> 20]
 WithClock(s, f, off) == [Civil0(s) EXCEPT !.h = NumAt(s, 12, 2), !.mi = NumAt(s, 15, 2), !.s = NumAt(s, 18, 2), !.f = f, !.off = off]
-ParseDT(s) ==     \* layout "2006-01-02 15:04:05.999999" (two-digit fields only)
+ParseDT(s, loc) ==     \* time.ParseInLocation("2006-01-02 15:04:05.999999", s, loc) (two-digit fields only)
   IF DatePrefix(s) /\ Len(s) >= 19 /\ Ch(s, 11) = " " /\ ClockOK(s)
-  THEN LET fr == Frac(s) IN IF fr.next = Len(s) + 1 THEN CivilDone(WithClock(s, fr.f, 0)) ELSE NoTime
+  THEN LET fr == Frac(s) IN IF fr.next = Len(s) + 1 THEN CivilDone(WithClock(s, fr.f, loc)) ELSE NoTime
   ELSE NoTime
-ParseRFC(s) ==    \* time.RFC3339Nano
+ParseRFC(s) ==    \* time.RFC3339Nano: the offset is in the string, the location plays no part in the instant
   IF DatePrefix(s) /\ Len(s) >= 20 /\ Ch(s, 11) = "T" /\ ClockOK(s)
   THEN LET fr == Frac(s) p == fr.next IN
        IF p = Len(s) /\ Ch(s, p) = "Z" THEN CivilDone(WithClock(s, fr.f, 0))
@@ -79,8 +97,9 @@ ParseRFC(s) ==    \* time.RFC3339Nano
                  CivilDone(WithClock(s, fr.f, IF Ch(s, p) = "-" THEN -o ELSE o))
        ELSE NoTime
   ELSE NoTime
-\* StringLiteral.ToTimeLiteral in UTC
-ParseTimeStr(s) == IF IsDateTimeString(s) THEN (LET a == ParseDT(s) IN IF a.ok THEN a ELSE ParseRFC(s))
-                   ELSE IF IsDateString(s) THEN CivilDone(Civil0(s))
-                   ELSE NoTime
+\* StringLiteral.ToTimeLiteral(loc), loc a fixed offset (minutes east of UTC; nil is UTC = 0)
+ParseTimeStrIn(s, loc) == IF IsDateTimeString(s) THEN (LET a == ParseDT(s, loc) IN IF a.ok THEN a ELSE ParseRFC(s))
+                          ELSE IF IsDateString(s) THEN CivilDone([Civil0(s) EXCEPT !.off = loc])
+                          ELSE NoTime
+ParseTimeStr(s) == ParseTimeStrIn(s, 0)
 =============================================================================
